@@ -40,6 +40,10 @@ type connIDManager struct {
 	queueControlFrame         func(wire.Frame)
 
 	closed bool
+
+	// [UQUIC] the active_connection_id_limit advertised to the peer, if it is larger than
+	// protocol.MaxActiveConnectionIDs (set by SetConnectionIDLimit, 0 otherwise)
+	connIDLimit uint64
 }
 
 func newConnIDManager(
@@ -65,7 +69,8 @@ func (h *connIDManager) Add(f *wire.NewConnectionIDFrame) error {
 	if err := h.add(f); err != nil {
 		return err
 	}
-	if len(h.queue) >= protocol.MaxActiveConnectionIDs {
+	// [UQUIC] A peer must be able to use the active_connection_id_limit that was advertised to it.
+	if uint64(len(h.queue)) >= max(protocol.MaxActiveConnectionIDs, h.connIDLimit) {
 		return &qerr.TransportError{ErrorCode: qerr.ConnectionIDLimitError}
 	}
 	return nil
